@@ -278,8 +278,11 @@ class HddSplit(Suite):
                         while sum(1 for e in l2["bat"] if e) * 10 < len(l2["bat"]) * 7:
                             l2 = gen_hds_layers(rng, 1, nsect)[0]
                         l.update(l2)
-                storages.append({"nsect": nsect, "layers": layers, "plain_base": rng.chance(0.2),
-                                 "image_order": rng.sample(range(depth), depth)})
+                storages.append({"nsect": nsect, "layers": layers, "plain_base": rng.chance(0.2 if depth > 1 else 0.5),
+                                 "image_order": rng.sample(range(depth), depth),
+                                 # a Plain image may be longer than the range its storage declares (slack behind End):
+                                 # the bytes behind End belong to nobody
+                                 "plain_pad": rng.pick([0, 0, 3, 16, 40])})
             total = sum(st["nsect"] for st in storages)
             bounds, acc = [], 0
             for st in storages:
@@ -298,7 +301,7 @@ class HddSplit(Suite):
     def _files(st):
         files = [SUITES["hds"].build_files(l)["file"] for l in st["layers"]]
         if st["plain_base"]:
-            files[-1] = core.SparseFile(st["nsect"] * 512, {}, salt=st["layers"][-1]["salt"] ^ 0x77)
+            files[-1] = core.SparseFile((st["nsect"] + st.get("plain_pad", 0)) * 512, {}, salt=st["layers"][-1]["salt"] ^ 0x77)
         return files
 
     def expected(self, case):
